@@ -101,6 +101,10 @@ class GotranPythonCodePrinter(PythonCodePrinter):
 
         return value
 
+    def _print_Not(self, expr):
+        # Python's ``not`` is scalar only (fails for arrays and under jax.jit)
+        return f"numpy.logical_not({self._print(expr.args[0])})"
+
     def _print_Or(self, expr):
         # value = super()._print_Or(expr)
         args = [self._print(arg) for arg in expr.args]
